@@ -79,7 +79,11 @@ def run(ctx, sources, label, model_ok=True, project=proj_full, path="t.sd", fuel
         res = core.cli_batch([s for s, _ in pick], path=path)
         ctx.cov["cli_reconfirmed"] += len(pick)
         for (s, a), r in zip(pick, res):
-            if proj_full(r) != proj_full(a):
+            same = proj_full(r) == proj_full(a)
+            if not same and r["status"] == a["status"] == "101" and r["stdout"] == a["stdout"]:
+                same = True         # a panic: the hook reports the payload, the command line Rust's own report (with a backtrace
+                                    # if the environment asks for one); the text is not comparable, the status and stdout are
+            if not same:
                 ctx.unproved("hook:run", "the batch hook and the command-line path differ", {"input": s, "hook": a, "cli": r})
                 break
     if dis:
